@@ -360,6 +360,14 @@ func (in *Instance) makeOptions(call int, set []Atom) ([]compose.Option, []strin
 			panic("unknown option type " + a.T)
 		}
 		switch {
+		case a.Sibling != nil:
+			np := func(p []string) *compose.NodePath { return compose.NewNodePath(p...) }
+			base := o
+			for _, p := range a.Paths[:len(a.Paths)-1] {
+				base = base.DesignateNodeWithPath(np(p))
+			}
+			o = base.DesignateNodeWithPath(np(a.Paths[len(a.Paths)-1]))
+			_ = base.DesignateNodeWithPath(np(a.Sibling))
 		case len(a.Paths) == 1 && len(a.Paths[0]) == 1:
 			o = o.DesignateNode(a.Paths[0][0]) // designated by key
 		case len(a.Paths) > 0:
